@@ -19,6 +19,7 @@ import (
 	revocation "github.com/gr33nbl00d/caddy-revocation-validator"
 	"github.com/gr33nbl00d/caddy-revocation-validator/crl"
 	"github.com/gr33nbl00d/caddy-revocation-validator/crl/crlrepository"
+	"github.com/gr33nbl00d/caddy-revocation-validator/crl/crlstore"
 	"github.com/muesli/cache2go"
 )
 
@@ -88,6 +89,17 @@ type Node struct {
 	Provd    bool
 	Dead     bool
 	Interval time.Duration
+	provDone chan struct{}
+}
+
+// syncProvisioned gives the race detector the one happens-before edge the deployment guarantees:
+// Caddy finishes Provision before any handshake can reach the module. The provisioning task closes
+// a channel (a race-visible synchronisation event) and the root goroutine, which forks every later
+// task, receives from it.
+func (n *Node) syncProvisioned() {
+	if n.provDone != nil {
+		<-n.provDone
+	}
 }
 
 type Harness struct {
@@ -238,7 +250,9 @@ func (h *Harness) StartProvision(n *Node) *Task {
 		panic(err)
 	}
 	n.V = v
+	n.provDone = make(chan struct{})
 	return h.S.Go(n.Name, n.Name+"/provision", func() {
+		defer close(n.provDone)
 		n.ProvErr = v.Provision(caddy.Context{})
 		n.Provd = true
 	})
@@ -248,6 +262,7 @@ func (h *Harness) StartProvision(n *Node) *Task {
 func (h *Harness) Provision(n *Node) error {
 	t := h.StartProvision(n)
 	h.Wait(t)
+	n.syncProvisioned()
 	return n.ProvErr
 }
 
@@ -508,4 +523,27 @@ func uniq(s []string) []string {
 
 func Chain(certs ...*x509.Certificate) [][]*x509.Certificate {
 	return [][]*x509.Certificate{certs}
+}
+
+type x509Cert = x509.Certificate
+
+// repoStore returns the CRLStore of the repository's first entry (by identifier order); fields are
+// found by type, not by name.
+func repoStore(repo *crlrepository.Repository) crlstore.CRLStore {
+	if repo == nil {
+		return nil
+	}
+	v := reflect.ValueOf(repo).Elem()
+	for i := 0; i < v.NumField(); i++ {
+		f := v.Field(i)
+		if f.Kind() == reflect.Map && f.Type().Elem() == reflect.TypeOf((*crlrepository.Entry)(nil)) {
+			m := reflect.NewAt(f.Type(), unsafe.Pointer(f.UnsafeAddr())).Elem().Interface().(map[string]*crlrepository.Entry)
+			for _, k := range sortedKeys(m) {
+				if e := m[k]; e != nil && e.CRLStore != nil {
+					return e.CRLStore
+				}
+			}
+		}
+	}
+	return nil
 }
